@@ -66,7 +66,7 @@ def run(ctx):
                 "fact_registered_first_segments", "fact_default_addresses_differ", "fact_auth_types", "configure_auth_sound",
                 "fact_authorized_keys", "authorized_keys_sound", "commented_out_line_is_dead", "text_after_hash_is_ignored",
                 "fact_middleware_stateless", "decision_independent_of_history", "fact_middleware_order",
-                "fact_middleware_handler_is_a_fresh_closure"]
+                "fact_middleware_handler_is_a_fresh_closure", "fact_matches_path_is_a_plain_prefix_test"]
     for r in required:
         if not any(t.endswith("Props." + r) for t in thms):
             ctx.oblige("thm-present:" + r, False, "theorem missing or its module does not build")
